@@ -20,10 +20,12 @@ THEOREMS = {
     'C15_roundtrip_nonvacuous': 'a concrete nested program under a concrete lay-out with comments, CRLF, VT: well-formed, printed text as expected, parses back (kernel evaluation)',
     'C15_layout_independent': 'two lay-outs of one program parse to the same value (white space, line breaks, comments, brace spacing)',
     'C15_commands_table': 'BstParser.COMMANDS as regenerated from /repo equals the reference table of the ten BibTeX commands and their numbers of argument groups',
-    'C15_command_case': 'command names are looked up case-insensitively and returned as written',
-    'C15_malformed_located': 'well-formed program + offence under ANY lay-out: non-command where a command is due / non-{ where a group is due / text ends with groups due / group never closed => syntax error on the line of the offending lexeme (resp. last line)',
-    'C15_malformed_located_nonvacuous': 'concrete instances of the four cases, offence on line 3, and the reference reading names the same lexeme (kernel evaluation)',
-    'C15_unterminated_string_partial': 'parser level: a quote with no closing quote after it inside a group => "name or string or ..." expected on the line the scanner is on',
+    'C15_command_case': 'conjunct 1: [model wiring] on the SPEC function cmdArity (defined as a lookup of the ASCII-upper-cased name); conjunct 2 (a program well-formed up to the letter case of its command names parses back to itself, spelling kept): corollary of C15_roundtrip, whose WFProg admits any letter case; the claim about the CODE is carried by C15_roundtrip + C15_commands_table',
+    'C15_malformed_located': 'FOUR offence shapes behind a well-formed program (not all malformed text), ANY lay-out: a well-formed non-command lexeme where a command is due / a well-formed lexeme other than { where a group is due / text ends with groups due / ONE group of complete tokens never closed (any depth: C15_unclosed_groups_located) => syntax error on the line of the offence (resp. last line)',
+    'C15_malformed_located_nonvacuous': 'C15_malformed_located INSTANTIATED per case (twice for case 1): prefix, offence and lay-out exhibited, every hypothesis discharged, the rendered source shown EQUAL to the literal text and the named line to be 3, the rejection of the literal derived from the theorem; the reference reading names the same lexeme',
+    'C15_unclosed_groups_located': 'the text ends while groups are open at ANY depth (an argument group and function literals nested in it, each holding complete tokens: what a cut between two tokens or several missing } leave), behind a well-formed program, under ANY lay-out and final comment: premature end of file on the last line',
+    'C15_unclosed_groups_located_nonvacuous': 'the theorem instantiated with two open levels: hypotheses discharged, rendered source = literal text, last line 3, rejection derived from the theorem',
+    'C15_unterminated_string_partial': 'parser level only (the internal parse_group loop on a scanner state, not a source text; superseded end-to-end by C15_lexical_error_located): white space without CR, then a quote with no closing quote after it => "name or string or ..." expected on the line the scanner is on',
     'C15_fuel_adequate': 'the fuel-indexed loops of the model never run out of fuel; entry points never return model-only outcomes',
     'C15_entry_points_agree_partial': 'plain line breaks: parse_stream text = parse_string text with lines rstripped; with no trailing white space parse_string / parse_stream / parse_file agree',
     'C15_entry_points_agree_neg': 'witness: a string literal spanning a line break with a blank before the break is read differently by parse_string and parse_stream',
@@ -33,7 +35,7 @@ THEOREMS = {
     'C15_int_too_long_located_nonvacuous': 'the regenerated interpreter limit equals the reference limit 4300; 10^4299 is a well-formed integer token, 10^4300 is not',
     'C15_equality': 'the == of parse results (Variable.__eq__, Function.__eq__, list.__eq__) is structural equality; two printed well-formed programs parse to equal values iff the same program was written, whatever the lay-outs',
     'C15_equality_nonvacuous': 'tokens differing in a leaf value, a leaf class or a nested body are unequal; command names compare as written',
-    'C15_command_ascii': 'a name accepted by the arity table consists of ASCII letters and upper-cases to a table entry; every command of every ACCEPTED source is one of the ten commands with exactly its number of groups',
+    'C15_command_ascii': 'a name accepted by the arity table consists of ASCII letters and upper-cases to a table entry; every command of every ACCEPTED source is one of the ten commands with exactly its number of groups (the only proved fact about arbitrary accepted sources: there is no theorem "parse_string(src) = p implies src spells p")',
     'C15_roundtrip_entry_points': 'printing any well-formed program with any lay-out whose line breaks are \\n / \\r\\n and reading it back through parse_stream or parse_file is the identity too - trailing blanks allowed (no noTrailingWs proviso)',
     'C15_roundtrip_entry_points_nonvacuous': 'a lay-out with blanks before \\n, \\r\\n, a comment and the end of text: plain breaks, trailing white space, parse_stream and parse_file read the program back (kernel evaluation)',
     'C15_command_ascii_nonvacuous': 'long-s ORT / dotless-i TERATE are not commands (rejected on their line), #<Arabic digit> is no integer, sOrT is a command',
@@ -905,7 +907,8 @@ def gen_cases(tier, rng, info):
 LEVEL_TEXT = ('Machine-checked proofs (Lean 4) about an executable model of pybtex/bibtex/bst.py + the Scanner pieces it uses: '
               'strip_comment characterised exactly; print-then-parse is the identity for every well-formed program under every '
               'lay-out (any of the 29 white-space characters, %-comments ended by any line break, optional space around braces, '
-              'any letter case of command names); located syntax errors after a well-formed prefix; agreement of the entry points. '
+              'any letter case of command names); located syntax errors for listed offence shapes after a well-formed prefix (incl. text '
+              'ending inside groups at any depth); agreement of the entry points. '
               'The model is tied to the code by a differential check (exhaustive small scope + random + the seven style files of '
               'tests/data) and the oracle compares the implementation with an independent reference reading of lexeme sequences.')
 LEVEL_NOTE = ('Trusted: Lean kernel; axioms propext/Classical.choice/Quot.sound only; the hand-written model (Model/BstParse.lean, '
@@ -917,4 +920,12 @@ LEVEL_NOTE = ('Trusted: Lean kernel; axioms propext/Classical.choice/Quot.sound 
               'beyond the int() digit limit is a syntax error instead of ValueError).  Nesting several hundred levels deep raises RecursionError '
               '(recorded finding C15-deep-nesting-recursion).  Strings spanning several lines are parsed as the code does, but '
               'line numbers after them are off (the scanner does not count line breaks inside tokens) and parse_stream rstrips inside them '
-              '(C15_entry_points_agree_neg); they are outside WFProg.')
+              '(C15_entry_points_agree_neg); they are outside WFProg.  NOT PROVED: (1) general rejection -- no theorem says that EVERY '
+              'source that is not a lay-out of a well-formed program is rejected; rejection with the right line is proved for the offence '
+              'shapes of C15_malformed_located (4), C15_unclosed_groups_located, C15_lexical_error_located (3 positions) and '
+              'C15_int_too_long_located behind a well-formed prefix; (2) soundness -- no theorem says that parse_string(src) = p implies '
+              'that src spells p (the only fact about arbitrary accepted sources is C15_command_ascii, conjunct 2); a statement would '
+              'need a spelling relation that admits multi-line strings and integer literals with leading zeros.  Both directions on '
+              'arbitrary text (random raw text, every single-lexeme corruption and character truncation) are covered by the differential '
+              'check and its independent reference reading only.  C15_command_case conjunct 1 and C15_unterminated_string_partial are '
+              'about the spec function / an internal parser function (see their clause texts).')
